@@ -32,8 +32,11 @@ FNames == <<FieldNames1, FieldNames2, FieldNames3, FieldNames4>>
 MethodNames == <<"Ping", "GetURL", "Get2FA", "ListAll", "X", "IPv6Lookup", "SetHTTPProxy", "Do", "Type", "ResolveDNSName">>
 TypeNames1 == <<"Person", "IPAddress", "Config2", "T">>
 EnumNames == <<"Status", "IPVersion", "Mode2">>
+\* one spelling style per list (a generator may treat a uniform list specially) and mixed ones
 VariantLists == << <<"idle", "busy", "away">>, <<"IPv4", "IPv6">>, <<"not_ok", "OK", "type", "x2">>, <<"only">>,
-                   <<"camelCase", "snake_case", "UPPER", "With2Digits">> >>
+                   <<"camelCase", "snake_case", "UPPER", "With2Digits">>,
+                   <<"plain", "tls_1_2", "tls_1_3", "utf_8">>, <<"level1", "l3_cache", "x_2y">>,
+                   <<"readOnly", "readWrite", "ioError2">>, <<"ReadOnly", "HTTPProxy", "Tls13">>, <<"ON", "OFF", "AUTO_2">> >>
 ErrorNames == <<"NotFound", "NotOK", "IOError", "Bad2", "E">>
 Pick(s, n) == s[(n % Len(s)) + 1]
 
@@ -54,10 +57,17 @@ Iface(i) ==
         t3 == M("type", "Outer", <<F("inner", Custom(tn1)), F("kind", Custom(en)), F("more", Wrap("arr", Custom(tn1)))>>, <<>>, <<>>, FALSE)
         nm == (i % 3) + 1
         meth(x) == M("method", Pick(MethodNames, i + x * 3), fields((i + x) % 5, x, TRUE), fields((i + x * 2) % 4, x + 4, TRUE), <<>>, FALSE)
+        \* two methods whose outputs have the same types under names that differ only in spelling: each must
+        \* keep its own wire names
+        tw1 == Pick(PlainSeq, i * 3 + 1)
+        tw2 == Pick(PlainSeq, i * 7 + 2)
+        twins == IF i % 3 = 1 THEN <<M("method", "TwinA", <<>>, <<F("userName", tw1), F("URL", tw2)>>, <<>>, FALSE),
+                                     M("method", "TwinB", <<>>, <<F("user_name", tw1), F("url", tw2)>>, <<>>, FALSE)>>
+                 ELSE <<>>
         ne == i % 4
         err(x) == M("error", Pick(ErrorNames, i + x), fields((i + x) % 3, x + 9, TRUE), <<>>, <<>>, FALSE)
     IN [name |-> Pick(<<"org.example.cg", "io.s9.api-v2", "com.ex-ample.Sub.iface">>, i), comments |-> <<>>,
-        members |-> <<t1, t2>> \o (IF i % 2 = 0 THEN <<t3>> ELSE <<>>) \o [x \in 1..nm |-> meth(x)] \o [x \in 1..ne |-> err(x)]]
+        members |-> <<t1, t2>> \o (IF i % 2 = 0 THEN <<t3>> ELSE <<>>) \o [x \in 1..nm |-> meth(x)] \o twins \o [x \in 1..ne |-> err(x)]]
 
 VARIABLES v, b
 NB == 16
